@@ -24,9 +24,11 @@ package nsqlookupd
 // pinned).
 //
 // Where the statement is silent the model follows the implementation's choice instead of
-// demanding one: the presence of an EMPTY ephemeral key after a disconnect, after a topic-level
-// UNREGISTER emptied one of its channels, or after somebody who was not registered sent
-// UNREGISTER for it. Pinned: an ephemeral key is gone once its last producer unregistered it.
+// demanding one: the presence of an EMPTY ephemeral key after a disconnect or after a topic-level
+// UNREGISTER emptied one of its channels as a side effect. Pinned ("ephemeral names disappear
+// once unused"): after an UNREGISTER - from ANY identified peer, registered for it or not - that
+// names an ephemeral channel or an ephemeral topic whose producer set is empty afterwards, that
+// key is no longer advertised by /channels, /topics or /lookup.
 
 import (
 	"encoding/json"
@@ -253,6 +255,7 @@ type verifC14World struct {
 	onlyTopic int
 	// what happened (for the vacuity witnesses)
 	sawEphemeralRemoved bool
+	sawEphemeralDropped bool // an existing empty ephemeral key went with the UNREGISTER of a non-producer
 	sawDisconnect       bool
 	sawFatal            bool
 }
@@ -314,6 +317,26 @@ func (w *verifC14World) connect(p int) {
 	if p == 1 {
 		addr = "10.0.0.2:5000"
 	}
+	w.connectAs(p, verifC14Host(p), addr)
+	// the client object lives inside Handle: find the peer by its connection (remote address)
+	var info *PeerInfo
+	for _, pr := range w.l.DB.FindProducers("client", "", "") {
+		if pr.peerInfo.RemoteAddress == addr {
+			info = pr.peerInfo
+		}
+	}
+	verifrt.Assert(info != nil, "identify-records-the-peer")
+	if info != nil {
+		verifrt.Assert(info.BroadcastAddress == verifC14Host(p) && info.Hostname == verifC14Host(p) &&
+			info.TCPPort == 4150 && info.HTTPPort == 4151 && info.Version == "1.3.0" &&
+			info.RemoteAddress == addr, "identify-records-the-announced-fields")
+	}
+	w.peers[p].info = info
+}
+
+// connectAs: connection slot p is a new connection from remote address addr whose IDENTIFY
+// announces the nsqd `host` (broadcast address and hostname; tcp port 4150, http port 4151)
+func (w *verifC14World) connectAs(p int, host, addr string) {
 	conn := &verifC14Conn{addr: addr, in: make(chan []byte, 1), ev: make(chan int, 1)}
 	// the whole accept path: tcpServer.Handle reads the protocol magic, creates the client, runs
 	// IOLoop and closes the connection afterwards
@@ -326,8 +349,8 @@ func (w *verifC14World) connect(p int) {
 	verifrt.Assert(first == verifC14Idle, "handle-waits-for-the-protocol-magic")
 	verifrt.Assert(w.send(p, []byte("  V1")), "handle-accepts-the-v1-magic")
 	body, _ := json.Marshal(verifC14Identify{
-		BroadcastAddress: verifC14Host(p),
-		Hostname:         verifC14Host(p),
+		BroadcastAddress: host,
+		Hostname:         host,
 		TCPPort:          4150,
 		HTTPPort:         4151,
 		Version:          "1.3.0",
@@ -340,20 +363,6 @@ func (w *verifC14World) connect(p int) {
 	t1 := verifC14Clock()
 	_, answered := conn.takeFrame()
 	verifrt.Assert(alive && answered, "identify-accepted-and-answered")
-	// the client object lives inside Handle: find the peer by its connection id
-	var info *PeerInfo
-	for _, pr := range w.l.DB.FindProducers("client", "", "") {
-		if pr.peerInfo.id == addr {
-			info = pr.peerInfo
-		}
-	}
-	verifrt.Assert(info != nil, "identify-records-the-peer")
-	if info != nil {
-		verifrt.Assert(info.BroadcastAddress == verifC14Host(p) && info.Hostname == verifC14Host(p) &&
-			info.TCPPort == 4150 && info.HTTPPort == 4151 && info.Version == "1.3.0" &&
-			info.RemoteAddress == addr, "identify-records-the-announced-fields")
-	}
-	w.peers[p].info = info
 	w.m.conn[p] = true
 	w.m.lu[p] = verifC14Iv{t0, t1}
 }
@@ -447,15 +456,16 @@ func (w *verifC14World) unregister(p, t, c int) {
 		was := m.rc[t][c][p]
 		m.rc[t][c][p] = false
 		if c == 1 && m.chanProducers(t, c) == 0 {
-			if was {
-				// the last producer unregistered the ephemeral channel: the key goes
-				if m.ckey[t][c] {
+			// an explicit UNREGISTER for an ephemeral channel that nobody produces (any more):
+			// the key goes, whether or not the caller was its last producer
+			if m.ckey[t][c] {
+				if was {
 					w.sawEphemeralRemoved = true
+				} else {
+					w.sawEphemeralDropped = true
 				}
-				m.ckey[t][c] = false
-			} else {
-				m.ckey[t][c] = w.implChanKey(t, c)
 			}
+			m.ckey[t][c] = false
 		}
 		return
 	}
@@ -471,14 +481,15 @@ func (w *verifC14World) unregister(p, t, c int) {
 		}
 	}
 	if t == 1 && m.topicProducers(t) == 0 {
-		if was {
-			if m.tkey[t] {
+		// an explicit UNREGISTER for an ephemeral topic that nobody produces (any more)
+		if m.tkey[t] {
+			if was {
 				w.sawEphemeralRemoved = true
+			} else {
+				w.sawEphemeralDropped = true
 			}
-			m.tkey[t] = false
-		} else {
-			m.tkey[t] = w.implTopicKey(t)
 		}
+		m.tkey[t] = false
 	}
 }
 
